@@ -720,6 +720,31 @@ func (r *pkgRun) longChecks(di int, vs, want string, multi bool, B []byte, hexB,
 		}
 		r.eval("C01", di, bucket, outcome, vs)
 	}
+	if r.on("C05") {
+		// the record followed by more data, from readers that hand over everything they are asked for (and more
+		// than the record needs is available): a long string must not be read past its end
+		outcome := "ok"
+		trail := make([]byte, 4096+r.rng.Intn(4096))
+		r.rng.Read(trail)
+		data := val.Hex(append(append([]byte(nil), B...), trail...))
+		for _, chunk := range []string{"all", "seek", "bufio"} {
+			op := fmt.Sprintf("decode %d %s %s", di, chunk, data)
+			rd := r.real(op)
+			if r.badReal("C05", di, op, rd, false) {
+				outcome = "fail"
+				continue
+			}
+			got, consumed, err := rd.ValConsumed()
+			if err != nil || got.CanonString() != want {
+				outcome = "fail"
+				r.fail("C05", "oracle", di, op, "ok "+session.Abbrev(want, 300), rd.Short(), "", "a record with a long string, followed by more data, does not decode to its value")
+			} else if consumed != len(B) {
+				outcome = "fail"
+				r.fail("C05", "oracle", di, op, fmt.Sprintf("consumed %d", len(B)), fmt.Sprintf("consumed %d", consumed), "", "a record with a long string does not leave the reader at its end")
+			}
+		}
+		r.eval("C05", di, bucket, outcome+"-long", vs)
+	}
 	if r.on("C06") {
 		r.c06(di, B, hexB, bucket)
 	}
